@@ -54,7 +54,7 @@ inline void GenZoo(Source& s, Lane l, Zoo& z, const ZooGenCfg& g)
 	n = ZLen(s, l, g); for (uint32_t i = 0; i < n; ++i) z.uset.insert(ZKey(s, l, g, i));
 	n = ZLen(s, l, g); for (uint32_t i = 0; i < n; ++i) z.umset.insert(static_cast<int32_t>(s.draw(l, 5)));
 	n = ZLen(s, l, g); for (uint32_t i = 0; i < n; ++i) z.map[ZKey(s, l, g, i)] = ZInt(s, l);
-	n = ZLen(s, l, g); for (uint32_t i = 0; i < n; ++i) z.imap[static_cast<int32_t>(i * 3) - 4] = ZStr(s, l, g);
+	n = ZLen(s, l, g); for (uint32_t i = 0; i < n && !z.skipIntKeyMaps; ++i) z.imap[static_cast<int32_t>(i * 3) - 4] = ZStr(s, l, g);
 	n = ZLen(s, l, g); for (uint32_t i = 0; i < n; ++i) z.mmap.emplace(static_cast<int32_t>(s.draw(l, 4)), ZInt(s, l));
 	n = ZLen(s, l, g); for (uint32_t i = 0; i < n; ++i) z.umap[ZKey(s, l, g, i)] = ZInt(s, l);
 	n = ZLen(s, l, g); for (uint32_t i = 0; i < n; ++i) z.ummap.emplace(static_cast<int32_t>(s.draw(l, 4)), ZInt(s, l));
@@ -67,6 +67,20 @@ inline void GenZoo(Source& s, Lane l, Zoo& z, const ZooGenCfg& g)
 	if (s.chance(l, 1, 2)) z.uptr = std::make_unique<int32_t>(ZInt(s, l));
 	if (s.chance(l, 1, 2)) z.sptr = std::make_shared<std::string>(ZStr(s, l, g) + "y");
 	if (s.chance(l, 1, 2)) { z.uobj = std::make_unique<Inner>(); z.uobj->a = ZInt(s, l); z.uobj->b = ZStr(s, l, g); }
+	z.baseId = ZInt(s, l);
+	z.baseName = ZStr(s, l, g);
+	z.color = static_cast<Color>(s.draw(l, 3));
+	n = s.draw(l, 4); for (uint32_t i = 0; i < n; ++i) z.emap[static_cast<Color>(s.draw(l, 3))] = ZInt(s, l);
+	if (!g.allowEmpty && z.emap.empty()) z.emap[Color::Green] = 1;
+	z.dur = std::chrono::seconds(GenSigned(s, l, 40));
+	z.durMs = std::chrono::milliseconds(GenSigned(s, l, 44));
+	{
+		// time points: around the epoch, before it, with and without sub-second parts
+		const int64_t secs = GenSigned(s, l, 33);   // system_clock::time_point counts nanoseconds in 64 bits: about +-292 years
+		const int64_t sub = static_cast<int64_t>(s.draw(l, 3) == 0 ? 0 : s.draw(l, 1000000000));
+		z.tp = std::chrono::system_clock::time_point(std::chrono::duration_cast<std::chrono::system_clock::duration>(std::chrono::seconds(secs) + std::chrono::nanoseconds(sub)));
+		z.tpMs = std::chrono::time_point<std::chrono::system_clock, std::chrono::milliseconds>(std::chrono::milliseconds(secs * 1000 + static_cast<int64_t>(s.draw(l, 1000))));
+	}
 	z.bits = std::bitset<8>(s.draw(l, 256));
 	z.tup = std::make_tuple(ZInt(s, l), ZStr(s, l, g), s.chance(l, 1, 2));
 	z.pr = std::make_pair(ZInt(s, l), ZStr(s, l, g));
@@ -107,6 +121,8 @@ inline void GenZoo(Source& s, Lane l, Zoo& z, const ZooGenCfg& g)
 		r.flag = s.chance(l, 1, 2);
 		if (s.chance(l, 1, 2)) r.opt = ZInt(s, l);
 		r.wide = ToUtf16(GenText(s, l, g.archive == A_XML ? TextProfile::Xml : TextProfile::Csv, 8));
+		r.color = static_cast<Color>(s.draw(l, 3));
+		r.when = std::chrono::time_point<std::chrono::system_clock, std::chrono::seconds>(std::chrono::seconds(GenSigned(s, l, 34)));
 		if (g.nonEmptyStrings) { if (r.name.empty()) r.name = "n"; if (r.wide.empty()) r.wide = u"n"; }
 		z.rows.push_back(r);
 	}
@@ -129,6 +145,7 @@ inline std::string RowRepr(const Row& r)
 	s += r.opt ? std::to_string(*r.opt) : "null";
 	s += ",";
 	HexAppend(s, r.wide.data(), r.wide.size() * 2);
+	s += "," + std::to_string(static_cast<int>(r.color)) + "," + std::to_string(r.when.time_since_epoch().count());
 	return s + "}";
 }
 
@@ -140,6 +157,13 @@ inline std::map<std::string, std::string> ZooFields(const Zoo& z, bool csv)
 	for (auto& r : z.rows) rows += RowRepr(r) + ",";
 	f["rows"] = rows + "]";
 	if (csv) return f;
+	f["base"] = std::to_string(z.baseId) + "/" + HexStr(z.baseName);
+	f["color"] = std::to_string(static_cast<int>(z.color));
+	{ std::string r = "{"; for (auto& kv : z.emap) r += std::to_string(static_cast<int>(kv.first)) + ":" + std::to_string(kv.second) + ","; f["emap"] = r + "}"; }
+	f["dur"] = std::to_string(z.dur.count());
+	f["durMs"] = std::to_string(z.durMs.count());
+	f["tp"] = std::to_string(z.tp.time_since_epoch().count());
+	f["tpMs"] = std::to_string(z.tpMs.time_since_epoch().count());
 	f["vec"] = SeqRepr(z.vec);
 	{ std::string r = "["; for (bool b : z.vbool) r += b ? "1," : "0,"; f["vbool"] = r + "]"; }
 	f["deq"] = SeqRepr(z.deq);
